@@ -200,6 +200,9 @@ func ReturnsOf(fn *ssa.Function) []*ssa.Return {
 			continue
 		}
 		if r, ok := b.Instrs[len(b.Instrs)-1].(*ssa.Return); ok {
+			if b == fn.Recover && len(b.Preds) == 0 {
+				continue // only reached after a recovered panic
+			}
 			out = append(out, r)
 		}
 	}
